@@ -1,7 +1,7 @@
 #!/bin/bash
 # confirm every seeded change (one suffix at a time: the demos hard-code /tmp/seed-<Cnn>)
 cd /verif/seeded
-for suf in $(ls -d C*-* | sed 's/.*-//' | sort -u); do
-  ls -d C*-$suf | xargs -P 4 -n 1 /verif/tools/confirm_seed.sh >/dev/null 2>&1
+for suf in $(ls -d C[0-9][0-9]-* | sed 's/.*-//' | sort -u); do
+  ls -d C[0-9][0-9]-$suf | xargs -P 4 -n 1 /verif/tools/confirm_seed.sh >/dev/null 2>&1
 done
 sort /verif/seeded/CONFIRM.log
